@@ -2,6 +2,7 @@ import Driver.Util
 import NutsModel.C06.Admit
 import NutsModel.C06.Cfg
 import NutsModel.C06.Framing
+import NutsModel.C06.Shelf
 open Lean Nuts.Drv Nuts.C06 Nuts
 
 namespace Nuts.Drv.C06
@@ -53,6 +54,11 @@ def b64StdGo : List Nat → List Nat → List Nat
 
 /-- the raw input bytes of a call (transport encoding of the ops file: standard base64) -/
 def bytesOfB64 (s : String) : List Nat := (b64StdGo (s.toList.filterMap b64StdVal) []).reverse
+
+def hexBytes (b : List Nat) : String := String.join (b.map fun x => String.ofList [hexDigitC (x / 16), hexDigitC (x % 16)])
+
+/-- digest of a byte string as the harness prints it: length, first bytes, rolling sum -/
+def dig (b : List Nat) : String := s!"{b.length}:{hexBytes (b.take 4)}:{b.foldl (fun a c => (a * 31 + c) % 1000003) 0}"
 
 /-- the header as jwx presents it, or the parse class when jwx refuses the input.  The framing verdict is COMPUTED by the model
     from the raw bytes (`Framing.isJWSSerialization`) whenever the call carries them. -/
@@ -169,6 +175,38 @@ def step (d : DSt) (j : Json) : DSt × List String :=
       | none => "e"
       | some b => s!"{b.length}:{String.join ((b.take 4).map fun x => String.ofList [hexDigitC (x / 16), hexDigitC (x % 16)])}:{b.foldl (fun a c => (a * 31 + c) % 1000003) 0}"
     (d, [s!"fr={fr} segs={segs.length} dec={String.intercalate "," ds}"])
+  | "hashlist" =>
+    let input := bytesOfB64 (jStr (jObj j "call") "in")
+    let parsed := Shelf.parseHashList input
+    let one := (List.range 32).map (· + 1)
+    let app := Shelf.appendHashList input one
+    let back := Shelf.parseHashList app
+    let clk := if input.length ≥ 4 then s!" clk={Shelf.ofBe (input.take 4)}" else ""
+    let cnt := if input.length ≥ 8 then s!" cnt={Shelf.ofBe (input.take 8)}" else ""
+    (d, [s!"n={parsed.length} nil={!Shelf.parseHashListNonNil input} refs={String.intercalate "," (parsed.map dig)} app={dig app} back={back.length}{clk}{cnt}"])
+  | "shelf" =>
+    let st := Shelf.buildStore d.st.txs
+    let h8 (b : List Nat) : String := hexBytes (b.take 4)
+    let keys := (st.clocks.map (·.1)).toArray.qsort (· < ·) |>.toList
+    let cl := keys.map fun k =>
+      let v := (Shelf.get st.clocks k).getD []
+      s!"{hexBytes (Shelf.be 4 k)}:{String.intercalate "," ((Shelf.parseHashList v).map h8)}{if v.length % 32 != 0 then s!"+{v.length % 32}" else ""}"
+    let doc := sortStrs (st.docs.map h8)
+    let md := [Shelf.numberOfTransactionsKey, Shelf.highestClockValue, Shelf.headRefKey].map fun k =>
+      match Shelf.get st.md k with
+      | none => k ++ ":-"
+      | some v => k ++ ":" ++ (if k == Shelf.headRefKey && v.length == 32 then h8 v else hexBytes v)
+    let rng := (jArr j "ranges").map fun r =>
+      let (a, b) := match r with
+        | .arr x => ((x[0]!.getNat?.toOption.getD 0), (x[1]!.getNat?.toOption.getD 0))
+        | _ => (0, 0)
+      let refs := Shelf.visitBetweenLC st.clocks a b
+      let show1 (h : List Nat) : String :=
+        match d.st.txs.find? (fun t => Shelf.hashBytes t.ref == h) with
+        | some t => s!"{t.clock}/{h8 h}"
+        | none => s!"?/{h8 h}"
+      s!"{a}-{b}:{String.intercalate "," (refs.map show1)}"
+    (d, [s!"CL={String.intercalate ";" cl} | DOC={String.intercalate "," doc} | MD={String.intercalate "," md} | roots={Shelf.rootsNonNil st.clocks} | RNG={String.intercalate ";" rng}"])
   | "new" =>
     let d : DSt := { subs := (jArr j "subs").map parseSub, lite := jBool j "lite" }
     let (d, o) := observe d
